@@ -47,7 +47,7 @@ COMPONENTS = {
     "real": ["VariableScaler", "EnOptConfig validation with transform context", "EnsembleEvaluator (from/to optimizer)", "results transform_from_optimizer", "BasicOptimizer", "optimizer step"],
     "stub": ["objective/constraint scalers (user supplied)", "SimEvaluator", "sim/scripted optimizer"],
 }
-PROBES = ["multi_key_filter_with_objective_scaling", "explicit_step_variables", "calls_compared", "results_compared", "perturbed_rows_compared", "feasibility_points_compared", "roundtrip_checked",
+PROBES = ["settings_objects_shared_by_two_steps", "multi_key_filter_with_objective_scaling", "explicit_step_variables", "calls_compared", "results_compared", "perturbed_rows_compared", "feasibility_points_compared", "roundtrip_checked",
           "variable_transform", "objective_transform", "constraint_transform", "linear_constraints", "relative_perturbation",
           "basic_dict_path", "basic_validated_path", "constraint_info_compared", "nan_faults"]
 
@@ -105,6 +105,11 @@ def generate(seed: int, index: int, tier: str) -> dict:
         for t in scn["plan"].get("trackers", []):
             t["sources"] = [i + 1 for i in t.get("sources", [])]
         scn["explicit_step_variables"] = True
+    elif path == "plan" and rng.random() < 0.2:
+        # the variable / non-linear constraint settings are objects the user created once and uses in the configuration
+        # of two steps: validating a configuration must not change them (the second step starts from the same point)
+        scn["plan"]["steps"].append({"kind": "evaluator", "cfg": 0})
+        scn["subconfig_objects"] = True
     scn["path"] = path
     scn["stratum"] = path
     return scn
@@ -267,6 +272,8 @@ def execute(scn: dict) -> dict:
         digest = harness.trace_digest(a) + harness.trace_digest(b)
         ea, eb = (a.exits[0] if a.exits else None), (b.exits[0] if b.exits else None)
         stepvar_bad = False
+        if scn.get("subconfig_objects") and a.evaluator.calls and b.evaluator.calls:
+            probe("settings_objects_shared_by_two_steps")
         if scn.get("explicit_step_variables") and a.evaluator.calls and b.evaluator.calls:
             probe("explicit_step_variables")
             ra, rb = a.evaluator.calls[0].variables, b.evaluator.calls[0].variables
